@@ -196,7 +196,8 @@ inductive Op (V : Type) where
   | ior (other : List (Str × V))        -- `d |= other`
   | ror (other : List (Str × V))        -- `d = other | d`
   | fromkeys (ks : List Str) (v : V)    -- `d = type(d).fromkeys(ks, v)`
-  | moveToEnd (k : Str) (last : Bool)
+  | moveToEnd (k : Str) (last : Bool)      -- key given as `str`
+  | moveToEndBytes (k : Str) (last : Bool) -- key given as the `bytes` that decode to `k`
   | keys | values | items | len | clear | reversed
   | sortedKeys (order : List Str)
   | sortedItems (order : List Str)
@@ -229,6 +230,7 @@ def step (up : Str → Str) (s : Store V) : Op V → Store V × Out V
     match odMoveToEnd s k last with
     | some s' => (s', .none)
     | none => (s, .err .KeyError)
+  | .moveToEndBytes _ _ => (s, .err .KeyError)  -- inherited: no `to_unicode`; no `bytes` key is ever stored
   | .keys => (s, .keys (odKeys s))
   | .values => (s, .vals (odVals s))
   | .items => (s, .items s)
@@ -267,6 +269,7 @@ def stepSpec (s : Store V) : Op V → Store V × Out V
     match odMoveToEnd s k last with
     | some s' => (s', .none)
     | none => (s, .err .KeyError)
+  | .moveToEndBytes _ _ => (s, .err .KeyError)  -- a dictionary with `str` keys has no `bytes` key
   | .keys => (s, .keys (odKeys s))
   | .values => (s, .vals (odVals s))
   | .items => (s, .items s)
@@ -298,6 +301,7 @@ def foldOp (up : Str → Str) : Op V → Op V
   | .ror other => .ror (other.map (foldPair up))
   | .fromkeys ks v => .fromkeys (ks.map up) v
   | .moveToEnd k last => .moveToEnd (up k) last
+  | .moveToEndBytes k last => .moveToEnd (up k) last   -- the caller decodes, then folds
   | op => op
 
 def run (up : Str → Str) : Store V → List (Op V) → Store V × List (Out V)
@@ -316,10 +320,11 @@ def runSpec : Store V → List (Op V) → Store V × List (Out V)
 
 /-- the calls on which CaselessDict is known to differ from a dictionary keyed by folded names
     (recorded findings): `pop` of a missing key without default, and `move_to_end` with a key
-    that is not already upper-case while its folded form is present -/
+    that is not already upper-case (or is `bytes`) while its folded form is present -/
 def excluded (up : Str → Str) (s : Store V) : Op V → Bool
   | .pop k none => !odHas s (up k)
   | .moveToEnd k _ => decide (up k ≠ k) && odHas s (up k)
+  | .moveToEndBytes k _ => odHas s (up k)
   | _ => false
 
 def runExcluded (up : Str → Str) : Store V → List (Op V) → Bool
